@@ -32,7 +32,8 @@ Skew == 3           \* getaddrinfo-allow-skew (seconds)
 Hosts == << [n |-> "hostv4", a4 |-> <<"10.9.9.9">>, a6 |-> <<>>],
             [n |-> "hostboth", a4 |-> <<"10.9.9.8">>, a6 |-> <<"2001:db8::8">>] >>
 HostsText == "10.9.9.9 hostv4\n10.9.9.8 hostboth\n2001:db8::8 hostboth\n"
-Ans(k, addrs, ttl, cname) == [k |-> k, addrs |-> addrs, ttl |-> ttl, cname |-> cname]
+Ans(k, addrs, ttl, cname) == [k |-> k, addrs |-> addrs, ttl |-> ttl, cname |-> cname, soa |-> 0]
+Neg(k, soa) == [k |-> k, addrs |-> <<>>, ttl |-> 0, cname |-> "", soa |-> soa]    \* negative answer with an SOA (ttl = minimum = soa) in the authority section
 None == Ans("nx", <<>>, 0, "")
 (* zone version v: name -> [a, aaaa] *)
 Zone(v) == <<
@@ -45,14 +46,18 @@ Zone(v) == <<
   [n |-> "slow6.test", a |-> Ans("ok", <<"10.0.3.1">>, 60, ""), aaaa |-> Ans("drop", <<>>, 0, "")],
   [n |-> "slow4.test", a |-> Ans("drop", <<>>, 0, ""), aaaa |-> Ans("ok", <<"2001:db8::31">>, 60, "")],
   [n |-> "v6only.test", a |-> Ans("nx", <<>>, 0, ""), aaaa |-> Ans("ok", <<"2001:db8::41">>, 60, "")],
-  [n |-> "hostv4", a |-> Ans("ok", <<"10.66.66.66">>, 60, ""), aaaa |-> Ans("ok", <<"2001:db8::66">>, 60, "")]   \* also in hosts: hosts win
+  [n |-> "hostv4", a |-> Ans("ok", <<"10.66.66.66">>, 60, ""), aaaa |-> Ans("ok", <<"2001:db8::66">>, 60, "")],  \* also in hosts: hosts win
+  (* one family exists with a short TTL, the other is answered negatively with a long-lived SOA: the negative answer's
+     lifetime says nothing about the positive records *)
+  [n |-> "neg6.test", a |-> Ans("ok", IF v = 1 THEN <<"10.0.4.1">> ELSE <<"10.2.4.1">>, 20, ""), aaaa |-> Neg("nodata", 600)],
+  [n |-> "neg4.test", a |-> Neg("nx", 600), aaaa |-> Ans("ok", IF v = 1 THEN <<"2001:db8::51">> ELSE <<"2001:db8:2::51">>, 20, "")]
 >>
 
 Nodes == << [k |-> "null", n |-> ""], [k |-> "num4", n |-> "1.2.3.4"], [k |-> "num6", n |-> "2001:db8::9"],
             [k |-> "name", n |-> "hostv4"], [k |-> "name", n |-> "hostboth"], [k |-> "name", n |-> "dual.test"],
             [k |-> "name", n |-> "v4only.test"], [k |-> "name", n |-> "cn.test"], [k |-> "name", n |-> "nx.test"],
             [k |-> "name", n |-> "slow6.test"], [k |-> "name", n |-> "slow4.test"], [k |-> "name", n |-> "v6only.test"],
-            [k |-> "name", n |-> "unknown.test"] >>
+            [k |-> "name", n |-> "unknown.test"], [k |-> "name", n |-> "neg6.test"], [k |-> "name", n |-> "neg4.test"] >>
 Servs == << [k |-> "null", s |-> ""], [k |-> "num", s |-> "80"], [k |-> "name", s |-> "http"], [k |-> "bad", s |-> "no such service!"],
             [k |-> "num", s |-> "65535"], [k |-> "bad", s |-> "65536"] >>
 Socks == << <<0, 0>>, <<STREAM, 0>>, <<DGRAM, 0>>, <<STREAM, TCP>>, <<0, UDP>>, <<0, TCP>> >>
